@@ -240,6 +240,8 @@ class Pipeline(object):
             self._state = PipelineState.stopping
             self._producer.stop()
             self._kill_workers()
+            # Wake process() if it is paused (concurrency 0, no workers)
+            self._unpaused_event.set()
 
     @asyncio.coroutine
     def _run_producer_wrapper(self):
